@@ -144,6 +144,15 @@ claim("C17", "other",
       "reader, the harness building main's buffering faithfully.",
       "retained-state theorems on the Lean model + measured peak-heap growth test", "§4 C17")
 
+claim("C11", "proof",
+      "Theorems (110+), for every input, with τ the transposition of LF and NUL and -z toggled: readAndCutStr_swap (general engine: -g -p -t -s -j -r -m, "
+      "fallbacks, format text), readAndCutFast_swap, cutBytesStream_swap (every segmentation), readAndCutLines_swap (both -l algorithms), "
+      "readAndCutStr_swap_chars (-c); the engine choice does not depend on -z; built on naturality lemmas for arbitrary injective byte maps (findIter, "
+      "replace, trim, compress, records). Domain: delimiter/replacement/format text/fallbacks contain neither byte; --json and -e excluded (DESIGN §5.4). "
+      "Direct oracle: implementation on (args, I) vs (-z args, τ I) in every mode.",
+      TIE + " The proof attempt found defect D25 (UTF-8 validation asymmetry of -l), since repaired.",
+      "Lean 4 equivariance theorems (naturality under an injective byte map, instantiated with the LF/NUL swap) + metamorphic oracle", "§4 C11")
+
 NOT_YET = "check under construction in this session (model, harness and driver exist; the property's check is not registered yet)"
 
 
